@@ -87,7 +87,7 @@ impl DiagnosticLocation for CfgError {
             CfgError::MultipleLabelsForReturn(node, _) | CfgError::NoLabelForReturn(node) => {
                 node.file()
             }
-            CfgError::LabelsNotDefined(labels) => labels.iter().next().unwrap().file(),
+            CfgError::LabelsNotDefined(labels) => labels.iter().min().unwrap().file(),
             CfgError::DuplicateLabel(label) => label.file(),
             CfgError::UnexpectedError | CfgError::AssertionError => uuid::Uuid::nil(),
         }
@@ -98,7 +98,7 @@ impl DiagnosticLocation for CfgError {
             CfgError::MultipleLabelsForReturn(node, _) | CfgError::NoLabelForReturn(node) => {
                 node.range()
             }
-            CfgError::LabelsNotDefined(labels) => labels.iter().next().unwrap().range(),
+            CfgError::LabelsNotDefined(labels) => labels.iter().min().unwrap().range(),
             CfgError::DuplicateLabel(label) => label.range(),
             CfgError::UnexpectedError | CfgError::AssertionError => crate::parser::Range::default(),
         }
@@ -109,7 +109,7 @@ impl DiagnosticLocation for CfgError {
             CfgError::MultipleLabelsForReturn(node, _) | CfgError::NoLabelForReturn(node) => {
                 node.raw_text()
             }
-            CfgError::LabelsNotDefined(labels) => labels.iter().next().unwrap().raw_text(),
+            CfgError::LabelsNotDefined(labels) => labels.iter().min().unwrap().raw_text(),
             CfgError::DuplicateLabel(label) => label.raw_text(),
             CfgError::UnexpectedError | CfgError::AssertionError => String::new(),
         }
